@@ -423,11 +423,12 @@ inline rc::Gen<Op> op4(const std::string& n, rc::Gen<int64_t> a, rc::Gen<int64_t
   return rc::gen::map(rc::gen::tuple(std::move(a), std::move(b), std::move(c), std::move(d)),
                       [n](std::tuple<int64_t, int64_t, int64_t, int64_t> t) { return Op{n, {std::get<0>(t), std::get<1>(t), std::get<2>(t), std::get<3>(t)}}; });
 }
-// op list whose length scales with the rapidcheck size: up to lo + size*per
+// op list whose length scales with the rapidcheck size: up to lo + size*per ops. A variable-length container, so that
+// shrinking removes ops (a fixed-length container would only shrink the ops themselves).
 inline rc::Gen<std::vector<Op>> oplist(rc::Gen<Op> g, int lo, double per) {
   return rc::gen::withSize([=](int size) {
     int maxn = lo + static_cast<int>(size * per);
-    return rc::gen::mapcat(rc::gen::inRange(0, maxn + 1), [=](int n) { return rc::gen::container<std::vector<Op>>(static_cast<size_t>(n), g); });
+    return rc::gen::resize(maxn, rc::gen::container<std::vector<Op>>(rc::gen::resize(size, g)));
   });
 }
 // weighted choice among op generators
